@@ -14,6 +14,10 @@ Inductive oobs := OEv (e : event) (key_exchange : N) (echo : bool) | OOther (t :
 (** how the manager task ended *)
 Inductive end_obs := ObsReturned | ObsPanicked | ObsHang.
 
+(** account-side items seen on the merged stream of ExecutionManager::init: the account snapshot
+    of a (re-)connection, or a Reconnecting notice ([origin_ok]: it names the manager's exchange) *)
+Inductive aobs := ASnap (t : N) | ARec (t : N) (origin_ok : bool).
+
 (** a scripted run *)
 Record scase := mkCase {
   c_mgr : mgr; c_stop : option N; c_script : list req; c_obs : list oobs; c_end : end_obs }.
@@ -29,7 +33,13 @@ Record scase := mkCase {
 Inductive case :=
 | Script (c : scase)
 | Flood (cap first taken events once : N) (e : end_obs)
-| Crash (c : scase).
+| Crash (c : scase)
+| Acct (c : scase) (pol : policy) (sched : list (N * N)) (aobs : list aobs) (ended_early : bool).
+(** [Acct c pol sched aobs ended_early]: a scripted run through ExecutionManager::init whose
+    scripted client ENDS its account stream at the times in [sched] and fails the following
+    re-initialisation the given number of times (backoff policy [pol]) while requests are in
+    flight.  [aobs]: the account-side items seen, in order; [ended_early]: the merged stream
+    ended although the manager was still running. *)
 (** [Crash c]: a scripted run in which the client future of ONE request panicked at virtual time
     [p] = [c_stop c] (that request is listed with behaviour [Never]).  A panicking client is
     outside the statement's hypotheses and what the manager does then is not prescribed (today
@@ -172,9 +182,40 @@ Definition crash_ok (c : scase) : bool :=
   | None => true
   end.
 
+Definition aobs_eqb (a b : aobs) : bool :=
+  match a, b with
+  | ASnap x, ASnap y => N.eqb x y
+  | ARec x ox, ARec y oy => N.eqb x y && Bool.eqb ox oy
+  | _, _ => false
+  end.
+
+Definition aobs_of_model (l : list mevent) : list aobs :=
+  flat_map (fun x => match x with MOrder _ => [] | MSnapshot t => [ASnap t] | MReconnecting t => [ARec t true] end) l.
+
+Definition notices_obs (l : list aobs) : list N :=
+  flat_map (fun x => match x with ARec t _ => [t] | ASnap _ => [] end) l.
+
+(** model agreement: the answers as for a plain script, and the account side exactly the model's
+    snapshots / notices at the model's (backoff) times; the merged stream lives as long as the
+    manager *)
+Definition corr_acct (c : scase) (pol : policy) (sched : list (N * N)) (ao : list aobs) (early : bool) : bool :=
+  corr_b c && negb early &&
+  list_eqb aobs_eqb (aobs_of_model (merged (c_mgr c) (c_stop c) (c_script c) pol sched)) ao.
+
+(** the oracle: every request still gets exactly its one answer whatever the account stream
+    does (the per-request specification knows nothing about it), the merged stream did not end
+    under the manager, and there is one Reconnecting notice, naming this exchange, per
+    disconnect, at the time of the disconnect *)
+Definition prop_acct (c : scase) (sched : list (N * N)) (ao : list aobs) (early : bool) : bool :=
+  prop_b c && negb early &&
+  list_eqb N.eqb (map fst sched) (notices_obs ao) &&
+  forallb (fun x => match x with ARec _ ok => ok | ASnap _ => true end) ao.
+
 Definition judge (c : case) : N :=
   match c with
   | Script c => if wf_case c then judge_code (corr_b c) (prop_b c) 0 else 0%N
   | Flood cap first taken events once e => judge_code true (flood_ok cap first taken events once e) 0
   | Crash c => if wf_case c then judge_code true (crash_ok c) 0 else 0%N
+  | Acct c pol sched ao early =>
+      if wf_case c then judge_code (corr_acct c pol sched ao early) (prop_acct c sched ao early) 0 else 0%N
   end.
